@@ -646,6 +646,79 @@ pub fn enumerations(property: &'static str, known: &KnownFindings) -> PartReport
     rep
 }
 
+// ---------------------------------------------------------------- encoding after a write that failed or was abandoned
+
+#[derive(Clone, Debug, Serialize, Deserialize, PartialEq, Eq, Hash)]
+pub enum Sink {
+    /// accepts everything
+    Whole,
+    /// accepts this many bytes (scaled to the message), then fails
+    FailsAfter(u16),
+    /// accepts this many bytes, then is not ready; the write is abandoned (its future dropped)
+    StallsAfter(u16),
+}
+
+#[derive(Clone, Debug, Serialize, Deserialize, PartialEq, Eq, Hash)]
+pub struct SeqCase {
+    pub writes: Vec<(Msg, Sink)>,
+}
+
+struct LimitedSink {
+    out: Vec<u8>,
+    budget: Option<usize>,
+    fail: bool,
+}
+impl tokio::io::AsyncWrite for LimitedSink {
+    fn poll_write(mut self: std::pin::Pin<&mut Self>, _cx: &mut std::task::Context<'_>, buf: &[u8]) -> std::task::Poll<std::io::Result<usize>> {
+        match self.budget {
+            None => { self.out.extend_from_slice(buf); std::task::Poll::Ready(Ok(buf.len())) }
+            Some(0) if self.fail => std::task::Poll::Ready(Err(std::io::Error::new(std::io::ErrorKind::BrokenPipe, "sink closed"))),
+            Some(0) => std::task::Poll::Pending,
+            Some(b) => { let n = b.min(buf.len()); self.out.extend_from_slice(&buf[..n]); self.budget = Some(b - n); std::task::Poll::Ready(Ok(n)) }
+        }
+    }
+    fn poll_flush(self: std::pin::Pin<&mut Self>, _cx: &mut std::task::Context<'_>) -> std::task::Poll<std::io::Result<()>> { std::task::Poll::Ready(Ok(())) }
+    fn poll_shutdown(self: std::pin::Pin<&mut Self>, _cx: &mut std::task::Context<'_>) -> std::task::Poll<std::io::Result<()>> { std::task::Poll::Ready(Ok(())) }
+}
+
+pub struct EncodeSequences;
+impl Part for EncodeSequences {
+    type Case = SeqCase;
+    fn name(&self) -> &'static str { "encode-sequences" }
+    fn rule(&self) -> &'static str {
+        "2-8 messages encoded one after the other on the same thread, each into its own stream that accepts everything, fails after a generated number of bytes, or stalls (the write is then abandoned); oracle: every write that completes has produced exactly the reference encoding of ITS message (nothing of an earlier, failed or abandoned message), and a failed write has emitted a prefix of it; non-trivial = a complete write that follows a failed or abandoned one; distinct by case"
+    }
+    fn strategy(&self, _t: Tier) -> BoxedStrategy<SeqCase> {
+        let sink = prop_oneof![3 => Just(Sink::Whole), 2 => any::<u16>().prop_map(Sink::FailsAfter), 2 => any::<u16>().prop_map(Sink::StallsAfter)];
+        prop::collection::vec((msg(4096).prop_map(|mut m| { m.headers.truncate(1); m.cuts.clear(); m }), sink), 2..9).prop_map(|writes| SeqCase { writes }).boxed()
+    }
+    fn run(&self, c: &SeqCase, obs: &mut Obs) -> Result<(), Fail> {
+        let cfg = Config::default();
+        let mut after_bad = false;
+        let mut interesting = false;
+        for (i, (m, sink)) in c.writes.iter().enumerate() {
+            let want = m.ref_bytes(); // at most one header: the byte string is unique
+            let budget = match sink { Sink::Whole => None, Sink::FailsAfter(k) | Sink::StallsAfter(k) => Some(idx(*k, want.len().max(1))) };
+            let mut s = LimitedSink { out: Vec::new(), budget, fail: matches!(sink, Sink::FailsAfter(_)) };
+            let r = if m.is_request { iw::write_request(&cfg, &mut s, m.to_request()).now_or_never() } else { iw::write_response(&cfg, &mut s, m.to_response()).now_or_never() };
+            match r {
+                Some(Ok(())) => {
+                    vensure!(s.out == want, "c07:layout", "message {i} of the sequence (after {} earlier writes, the previous one {}) was encoded as {} bytes that are not its reference encoding ({} bytes); first difference at offset {:?}", i, if after_bad { "failed or abandoned" } else { "complete" }, s.out.len(), want.len(), s.out.iter().zip(want.iter()).position(|(a, b)| a != b));
+                    if after_bad { interesting = true; }
+                    after_bad = false;
+                }
+                Some(Err(_)) | None => {
+                    vensure!(want.starts_with(&s.out), "c07:layout", "message {i}: the bytes emitted before the write failed/stalled are not a prefix of its encoding");
+                    after_bad = true;
+                }
+            }
+        }
+        obs.evals(c.writes.len() as u64);
+        if interesting { obs.nontrivial(c); obs.label("complete-write-after-a-failed-or-abandoned-one"); }
+        Ok(())
+    }
+}
+
 pub fn run(tier: Tier) -> i32 {
     let mut ctx = Ctx::new("C07", tier);
     ctx.assume("in-memory AsyncRead/AsyncWrite stand in for QUIC streams (the codecs are generic over them)");
@@ -654,6 +727,7 @@ pub fn run(tier: Tier) -> i32 {
     ctx.push_report(rep);
     ctx.run_part(Prefixes, tier.pick(300, 6_000));
     ctx.run_part(RoundTrip, tier.pick(20_000, 400_000));
+    ctx.run_part(EncodeSequences, tier.pick(10_000, 200_000));
     ctx.run_part(ArbitraryBytes, tier.pick(60_000, 2_000_000));
     if tier == Tier::Thorough {
         crate::fuzzrun::campaign(&mut ctx, "wire_request", 600_000);
